@@ -22,6 +22,14 @@ CHECKS = {
    technique="runtime monitor with fault injection: exhaustive operation sequences x every single and double failing driver primitive against an in-process transactional fake of the pgx interface; oracle over the driver call log, acknowledged-write reference map and committed map at quiescence",
    text="All client-legal sequences up to length 4 (quick) / 5 plus 400k longer PRNG sequences (thorough), each with every choice of 0, 1 or 2 failing primitive calls (begin/exec/query/next/scan/commit): the faulted operation must report an error, no panic, fault-free operations outside a dirty transaction must succeed and return acknowledged values, every transaction must be finished by Close, and the committed map must match the acknowledged writes.",
    note="Trusted base: pgfake's model of Postgres/pgx transaction semantics (no real Postgres offline). Dirty explicit transactions are don't-care. One recorded finding family (sticky multi mode after Stop, pinned by the repository's own test)."),
+ "C07": dict(engine="sessions-differential", category="exploration", design="§3 C07",
+   technique="runtime monitor: two-run differential (long-lived engine vs fresh engine+persister+store handle per request) over generated applications and histories on four backends, plus snapshot re-read equality",
+   text="The same generated application, configuration and input history are served by one long-lived engine and by a new engine per request over mem, fs, fs-binary and the Postgres driver fake; outputs, continue flags and error classes must agree step by step to the end of the session, and after every save the snapshot read back through a fresh handle must equal the live state/cache. No model is involved.",
+   note="Assumes error classes (not texts) are what the client observes; histories end at the first failing request. Trusted: harness drivers and pgfake."),
+ "C08": dict(engine="sessions-differential", category="exploration", design="§3 C08",
+   technique="runtime monitor: recover() + structural invariants at quiescent points over a breadth-first exploration of the session state graph (stored snapshot as branch point) and long PRNG walks, on the repository's example applications and generated well-formed ones",
+   text="Every example application of the repository and hundreds/thousands of generated well-formed applications are explored breadth-first to depth 4/6 over their whole selector alphabet plus hostile inputs, then walked for up to 400 requests; after every request: no panic, one cache scope per stack level, size accounting exact, limits respected, the session saves, loads and equals the live one.",
+   note="States after a failed request are checked but not extended in the exhaustive part. Op cap on callbacks turns runaway execution into a violation; a loop without callbacks is caught by the worker watchdog (inconclusive)."),
 }
 NOT_YET = {}
 ALL = ["C%02d" % i for i in range(1, 21)]
